@@ -30,5 +30,5 @@ def main(tier):
     chk.run("R-WIDTHS", lambda: cx.widths, floor=3000)
     chk.run("R-POSCHECK", V.poscheck, r, cx.schema, cx.sites, floor=9)
     chk.run("R-BOUNDARY", RG.boundary, r, floor=130)
-    chk.run("R-INTRANGE", RG.intrange, r, floor=190)
+    chk.run("R-INTRANGE", RG.intrange, r, parts=('backend',), floor=4)
     return chk.finish()
